@@ -113,6 +113,9 @@ class TriangularLinearOperator(LinearOperator, _TriangularLinearOperatorBase):
         # A batch of constants has to broadcast against both matrix dimensions
         if other.dim():
             other = other.unsqueeze(-1).unsqueeze(-1)
+        if isinstance(self._tensor, DenseLinearOperator):
+            # stay dense: solve() can only back-substitute through a DenseLinearOperator
+            return self.__class__(self._tensor.tensor * other, upper=self.upper)
         return self.__class__(self._tensor * other, upper=self.upper)
 
     def _root_decomposition(
